@@ -13,7 +13,6 @@ import (
 	"github.com/syndtr/goleveldb/leveldb/util"
 
 	"verif/harness/gen"
-	"verif/harness/rng"
 	"verif/harness/stor"
 )
 
@@ -28,7 +27,7 @@ func init() {
 		}
 		var w struct {
 			Replay struct {
-				Workload *wlSpec `json:"workload"`
+				Workload *crSpec `json:"workload"`
 				Issued   int     `json:"issued_before_crash"`
 				Image    struct {
 					Current string            `json:"current"`
@@ -42,15 +41,15 @@ func init() {
 		if os.Getenv("VERIF_FULL") != "" {
 			var w2 struct {
 				Replay struct {
-					Workload *wlSpec      `json:"workload"`
-					Path     []crashPoint `json:"crash_path"`
+					Workload *crSpec      `json:"workload"`
+					Path     []crPoint `json:"crash_path"`
 				} `json:"replay"`
 			}
 			json.Unmarshal(b, &w2)
 			replayCrashPath(c, w2.Replay.Workload, w2.Replay.Path)
 			return
 		}
-		st, err := loadImage(w.Replay.Image.Files, w.Replay.Image.Current)
+		st, err := crLoadImage(w.Replay.Image.Files, w.Replay.Image.Current)
 		if err != nil {
 			panic(err)
 		}
@@ -72,25 +71,25 @@ func init() {
 		c.Res.Eval("replay", true)
 		if err != nil {
 			fmt.Println("reopen error:", err)
-			c.Res.Violate("crash-image:reopen-error:"+errClass(err), err.Error(), nil)
+			c.Res.Violate("crash-image:reopen-error:"+crErrClass(err), err.Error(), nil)
 			return
 		}
 		defer db.Close()
-		got, err := dumpDB(db)
+		got, err := crDumpDB(db)
 		if err != nil {
 			fmt.Println("read error:", err)
 			c.Res.Violate("crash-image:read-error", err.Error(), nil)
 			return
 		}
-		oracle, msg, present := subsetOracle(bs, got, func(id int) bool { return id < w.Replay.Issued && bs[id].Kind != "txdiscard" }, nil)
-		fmt.Println("present:", idRanges(sortedIDs(present)), "oracle:", oracle, msg)
+		oracle, msg, present := crSubsetOracle(bs, got, func(id int) bool { return id < w.Replay.Issued && bs[id].Kind != "txdiscard" }, nil)
+		fmt.Println("present:", crIDRanges(crSortedIDs(present)), "oracle:", oracle, msg)
 		if oracle != "" {
 			c.Res.Violate("crash-image:"+oracle, msg, nil)
 		}
 	}
 }
 
-func parseFdName(name string) (storage.FileDesc, error) {
+func crParseFdName(name string) (storage.FileDesc, error) {
 	i := strings.LastIndexByte(name, '-')
 	if i < 0 {
 		return storage.FileDesc{}, fmt.Errorf("bad file name %q", name)
@@ -112,10 +111,10 @@ func parseFdName(name string) (storage.FileDesc, error) {
 	return fd, err
 }
 
-func loadImage(files map[string]string, current string) (*stor.Stor, error) {
+func crLoadImage(files map[string]string, current string) (*stor.Stor, error) {
 	st := stor.New()
 	for name, hx := range files {
-		fd, err := parseFdName(name)
+		fd, err := crParseFdName(name)
 		if err != nil {
 			return nil, err
 		}
@@ -126,7 +125,7 @@ func loadImage(files map[string]string, current string) (*stor.Stor, error) {
 		st.PutFile(fd, data)
 	}
 	if current != "none" && current != "" {
-		fd, err := parseFdName(current)
+		fd, err := crParseFdName(current)
 		if err != nil {
 			return nil, err
 		}
@@ -141,7 +140,7 @@ func loadImage(files map[string]string, current string) (*stor.Stor, error) {
 // replayCrashPath re-runs the workload, takes the image at the recorded storage operation with the
 // recorded image seed, and follows the nested crash points through the recoveries (exact only when the
 // operation order of the run repeats, i.e. for settle=true workloads).
-func replayCrashPath(c *Ctx, spec *wlSpec, path []crashPoint) {
+func replayCrashPath(c *Ctx, spec *crSpec, path []crPoint) {
 	bs := spec.gen()
 	o := spec.Opts.Options()
 	st := stor.New()
@@ -151,7 +150,7 @@ func replayCrashPath(c *Ctx, spec *wlSpec, path []crashPoint) {
 	}
 	var img *stor.Stor
 	issued := 0
-	sh := shadowOf(st)
+	sh := crShadowOf(st)
 	st.SetHooks(nil, func(s *stor.Stor, op stor.Op) {
 		if img == nil && op.Seq == path[0].OpSeq {
 			fmt.Println("level 1 crash before", op.String(), "recorded:", path[0].Op)
@@ -196,20 +195,20 @@ func replayCrashPath(c *Ctx, spec *wlSpec, path []crashPoint) {
 		fmt.Printf("image at level %d:\n", lvl)
 		for _, fd := range img.Files() {
 			bb, _ := img.FileBytes(fd)
-			fmt.Printf("  %s %d bytes\n", fdName(fd), len(bb))
+			fmt.Printf("  %s %d bytes\n", crFdName(fd), len(bb))
 			if fd.Type == storage.TypeManifest {
 				fmt.Printf("    %x\n", bb)
 			}
 		}
 		m, _ := img.Meta()
-		fmt.Println("  current:", fdName(m))
+		fmt.Println("  current:", crFdName(m))
 		work := img.Clone()
 		var lines []string
 		work.LogLines = &lines
 		var next *stor.Stor
 		if lvl < len(path) {
 			p := path[lvl]
-			sh2 := shadowOf(work)
+			sh2 := crShadowOf(work)
 			work.SetHooks(nil, func(s *stor.Stor, op stor.Op) {
 				if next == nil && op.Seq == p.OpSeq {
 					fmt.Println("level", lvl+1, "crash before", op.String(), "recorded:", p.Op)
@@ -230,13 +229,13 @@ func replayCrashPath(c *Ctx, spec *wlSpec, path []crashPoint) {
 			fmt.Println("reopen error:", err)
 			return
 		}
-		got, err := dumpDB(db2)
+		got, err := crDumpDB(db2)
 		db2.Close()
 		if err != nil {
 			fmt.Println("read error at level", lvl, ":", err)
 		} else {
-			oracle, msg, present := subsetOracle(bs, got, func(id int) bool { return id < issued && bs[id].Kind != "txdiscard" }, nil)
-			fmt.Println("level", lvl, "present:", idRanges(sortedIDs(present)), "oracle:", oracle, msg)
+			oracle, msg, present := crSubsetOracle(bs, got, func(id int) bool { return id < issued && bs[id].Kind != "txdiscard" }, nil)
+			fmt.Println("level", lvl, "present:", crIDRanges(crSortedIDs(present)), "oracle:", oracle, msg)
 		}
 		if next == nil {
 			return
